@@ -107,6 +107,7 @@ pub use {js_sys, wasm_bindgen};
 ///     let _ = access_database();
 /// }
 /// ```
+#[cfg(not(sycamore_verif_dom))]
 #[macro_export]
 macro_rules! is_ssr {
     () => {
@@ -114,6 +115,20 @@ macro_rules! is_ssr {
     };
     ($($tt:tt)*) => {
         #[cfg(any(not(target_arch = "wasm32"), sycamore_force_ssr))]
+        { $($tt)* }
+    };
+}
+
+/// Verification hook (`--cfg sycamore_verif_dom`): the DOM back end is selected on every target,
+/// so this is always false. `any()` is the always-false cfg predicate.
+#[cfg(sycamore_verif_dom)]
+#[macro_export]
+macro_rules! is_ssr {
+    () => {
+        cfg!(any())
+    };
+    ($($tt:tt)*) => {
+        #[cfg(any())]
         { $($tt)* }
     };
 }
@@ -134,6 +149,7 @@ macro_rules! is_ssr {
 ///     let document = document();
 /// }
 /// ```
+#[cfg(not(sycamore_verif_dom))]
 #[macro_export]
 macro_rules! is_not_ssr {
     () => {
@@ -145,8 +161,23 @@ macro_rules! is_not_ssr {
     };
 }
 
+/// Verification hook (`--cfg sycamore_verif_dom`): the DOM back end is selected on every target,
+/// so this is always true. `all()` is the always-true cfg predicate.
+#[cfg(sycamore_verif_dom)]
+#[macro_export]
+macro_rules! is_not_ssr {
+    () => {
+        !$crate::is_ssr!()
+    };
+    ($($tt:tt)*) => {
+        #[cfg(all())]
+        { $($tt)* }
+    };
+}
+
 /// `macro_rules!` equivalent of [`cfg_ssr`]. This is to get around the limitation of not being
 /// able to put proc-macros on `mod` items.
+#[cfg(not(sycamore_verif_dom))]
 #[macro_export]
 macro_rules! cfg_ssr_item {
     ($item:item) => {
@@ -155,12 +186,33 @@ macro_rules! cfg_ssr_item {
     };
 }
 
+/// Verification hook (`--cfg sycamore_verif_dom`): SSR-only items are never compiled.
+#[cfg(sycamore_verif_dom)]
+#[macro_export]
+macro_rules! cfg_ssr_item {
+    ($item:item) => {
+        #[cfg(any())]
+        $item
+    };
+}
+
 /// `macro_rules!` equivalent of [`cfg_not_ssr`]. This is to get around the limitation of not being
 /// able to put proc-macros on `mod` items.
+#[cfg(not(sycamore_verif_dom))]
 #[macro_export]
 macro_rules! cfg_not_ssr_item {
     ($item:item) => {
         #[cfg(all(target_arch = "wasm32", not(sycamore_force_ssr)))]
+        $item
+    };
+}
+
+/// Verification hook (`--cfg sycamore_verif_dom`): DOM-only items are always compiled.
+#[cfg(sycamore_verif_dom)]
+#[macro_export]
+macro_rules! cfg_not_ssr_item {
+    ($item:item) => {
+        #[cfg(all())]
         $item
     };
 }
@@ -196,8 +248,31 @@ pub fn create_client_effect(f: impl FnMut() + 'static) {
 ///
 /// If called inside an async-component, the callback will be called after the next suspension
 /// point (when there is an `.await`).
+#[cfg(not(sycamore_verif_dom))]
 pub fn on_mount(f: impl FnOnce() + 'static) {
     if cfg!(target_arch = "wasm32") {
+        let is_alive = Rc::new(Cell::new(true));
+        on_cleanup({
+            let is_alive = Rc::clone(&is_alive);
+            move || is_alive.set(false)
+        });
+
+        let scope = use_current_scope();
+        let cb = move || {
+            if is_alive.get() {
+                scope.run_in(f);
+            }
+        };
+        queue_microtask(cb);
+    }
+}
+
+/// Verification hook (`--cfg sycamore_verif_dom`): identical to the `on_mount` above except that the
+/// `cfg!(target_arch = "wasm32")` test is replaced by `true`, i.e. the callback is queued as a
+/// microtask on every target.
+#[cfg(sycamore_verif_dom)]
+pub fn on_mount(f: impl FnOnce() + 'static) {
+    if true {
         let is_alive = Rc::new(Cell::new(true));
         on_cleanup({
             let is_alive = Rc::clone(&is_alive);
